@@ -1,9 +1,92 @@
 import PyamgV.Driver.Util
-/-! Driver ops for property C05 (line protocol). Op names are prefixed `c05_`. -/
+import PyamgV.Model.C05Flag
+import PyamgV.Model.C05Cycle
+/-! Driver ops for property C05 (line protocol). Op names are prefixed `c05_`.
+
+A smoother specification is written `name~key=val~key=val` (`_` = Python `None` as the name); values
+are `n<rational>` (bool/int/float), `s<text>`, `N` (None), `o<tag>` (opaque object); lists of
+specifications are separated by `|`. -/
 namespace PyamgV.Drv.C05
-open PyamgV PyamgV.Drv
+open PyamgV PyamgV.Drv PyamgV.C05 PyamgV.K
+
+def parseVal (s : String) : Val :=
+  if s = "N" then .none
+  else match s.toList with
+    | 'n' :: r => match parseRat? (String.ofList r) with
+      | some q => .num q
+      | none => .other s
+    | 's' :: r => .str (String.ofList r)
+    | _ => .other s
+
+def parseCfg (s : String) : Cfg :=
+  match s.splitOn "~" with
+  | [] => ⟨none, []⟩
+  | nm :: kws =>
+    ⟨if nm = "_" then none else some nm,
+     kws.filterMap (fun kv => match kv.splitOn "=" with
+       | [k, v] => some (k, parseVal v)
+       | _ => none)⟩
+
+def parseCfgs (s : String) : List Cfg := (s.splitOn "|").map parseCfg
+
+def showOptStr : Option String → String
+  | none => "_"
+  | some s => s
+
+def showBoolOpt : Option Bool → String
+  | none => "reject"
+  | some b => toString b
+
+def mkCsr {α : Type} (p : String → Array α) (n ap aj ax : String) : Csr α := ⟨nat n, parseNats ap, parseNats aj, p ax⟩
+
+/-- levels: 10 tokens each `n ap aj ax  pp pj px  nc rp rj rx  C`, then the coarsest `n ap aj ax` -/
+def parseLevels {α : Type} (p : String → Array α) (pre post : List Cfg) :
+    Nat → List String → Option (List (Lvl α) × Csr α)
+  | _, [n, ap, aj, ax] => some ([], mkCsr p n ap aj ax)
+  | i, n :: ap :: aj :: ax :: pp :: pj :: px :: nc :: rp :: rj :: rx :: c :: rest => do
+    let s ← smOf (preAt pre i)
+    let t ← smOf (postAt post i)
+    let (ls, ac) ← parseLevels p pre post (i+1) rest
+    some (⟨mkCsr p n ap aj ax, mkCsr p n pp pj px, mkCsr p nc rp rj rx, (parseNats c).toList, s, t⟩ :: ls, ac)
+  | _, _ => none
+
+def showMatWith {α : Type} (f : Array α → String) (m : Array (Array α)) : String :=
+  if m.isEmpty then "-" else String.intercalate ";" (m.toList.map f)
+
+def runCyc {α : Type} [Add α] [Sub α] [Mul α] [Div α] [OfNat α 0] [OfNat α 1] [DecidableEq α]
+    (ofRat : Rat → α) (conj : α → α) (sh : Array α → String) (p : String → Array α)
+    (cyc pre post : String) (rest : List String) : String :=
+  let pre := parseCfgs pre
+  let post := parseCfgs post
+  match parseLevels p pre post 0 rest with
+  | none => "unmodelled"
+  | some (ls, ac) =>
+    let c : Cyc := if cyc = "W" then .W else .V
+    match denseM ofRat ac c ls, mopMat ofRat ac c ls with
+    | some M, some M' =>
+      let n := M.size
+      let herm := M == mconjT conj M n n
+      s!"{showMatWith sh M} {herm} {adjointPairs ofRat conj ls} {M == M'} {hermitianHierarchy conj ac ls}"
+    | _, _ => "singular"
 
 def handle : List String → Option String
+  | ["c05_flag", pre, post, nl] =>
+    some <| showBoolOpt (flag (parseCfgs pre) (parseCfgs post) (nat nl))
+  | ["c05_levelok", a, b] => some <| toString (levelOk (parseCfg a) (parseCfg b))
+  | ["c05_installed", pre, post, nl] =>
+    -- names installed per level, to compare with the `__name__`s on the real hierarchy
+    some <| sh ((List.range (nat nl)).map (fun i =>
+      showOptStr (preAt (parseCfgs pre) i).name ++ "/" ++ showOptStr (postAt (parseCfgs post) i).name))
+  | ["c05_warn", fl, accel] => some <| toString (cgWarns (fl = "true") (accel = "cg"))
+  | ["c05_tables"] =>
+    some <| sh (symmetricRelaxation.map showOptStr) ++ " " ++ sh (krylovRelaxation.map showOptStr) ++ " " ++
+      (match defaultSweep with | .str s => s | _ => "?") ++ " " ++
+      (match defaultNiter with | .num q => showRat q | _ => "?") ++ " " ++
+      String.intercalate ";" (registry.map (fun (nm, keys) => showOptStr nm ++ ":" ++ sh keys))
+  | "c05_cyc" :: "r" :: cyc :: pre :: post :: rest =>
+    some <| runCyc (α := Rat) id id showRats parseRats cyc pre post rest
+  | "c05_cyc" :: "c" :: cyc :: pre :: post :: rest =>
+    some <| runCyc (α := CRat) CRat.ofRat CRat.conj showCRats parseCRats cyc pre post rest
   | _ => none
 
 end PyamgV.Drv.C05
